@@ -1013,7 +1013,8 @@ func Run(t *testing.T, p *Plan, logOn bool) (v *verifh.Violation, info *runInfo)
 		synctest.Test(t, func(t *testing.T) {
 			start := time.Now()
 			w.run()
-			info.simS = time.Since(start).Seconds()
+			// simulated time the service was exercised for (without the initial clock offset)
+			info.simS = time.Since(start).Seconds() - float64(w.plan.StartJumpS)
 		})
 	}()
 	verifh.AddSimTime(info.simS * 1e9)
